@@ -14,6 +14,7 @@ CHECKS = {
     "C03": "mc.checks.c03",
     "C04": "mc.checks.c03",
     "C05": "mc.checks.c05",
+    "C06": "mc.checks.c06",
     "C07": "mc.checks.tablefam",
     "C08": "mc.checks.c08",
     "C09": "mc.checks.c09",
